@@ -59,6 +59,7 @@ ASSUMPTIONS = [
 ]
 FLOORS = {"step:defaults": 0.02, "step:values": 0.05, "nondefault": 0.04, "form:enum_name": 0.005, "form:bitfields": 0.025}
 
+BUDGET = {"quick": 240.0}  # 1100 enumerated tuples plus three full assignments per specification class
 AREAS = ("pfr", "ifr", "bca", "fcf", "fcb", "xmcd", "tz", "fuses", "memcfg")
 _PFR_SIZES = {"cmpa": 512, "cfpa": 512}
 _FILL = {"pfr": 0x00, "ifr": 0xFF}
@@ -1677,7 +1678,7 @@ def parts(ctx):
     except Exception:  # noqa: BLE001 - a broken tree shows up as failures of the cases, not here
         pass
     n_quick = 500
-    # one tuple per specification class with *every* assignable register given a value (two value modes): a register that is lost
+    # one tuple per specification class with *every* assignable register given a value (three value modes): a register that is lost
     # on the way (a tail cut off on parse, a word outside its group) cannot hide behind the draw of a few registers
     full = []
     seen = set()
@@ -1686,7 +1687,8 @@ def parts(ctx):
         if m.class_key in seen or not _values_domain(m):
             continue
         seen.add(m.class_key)
-        for j, mode in enumerate(("random", "max")):
+        # "min" (every register zero) selects the shortest variant of a size-dependent area (XMCD with one option word)
+        for j, mode in enumerate(("random", "max", "min")):
             full.append({"dev": t["dev"], "rev": t["rev"], "area": t["area"], "sub": t["sub"], "k": 100000, "first": 0,
                          "mode": mode if mode in MODES else MODES[0], "spell": "mixed", "whole": 0, "seed": 1000 + 2 * len(full) + j})
     return [
